@@ -96,6 +96,12 @@ CHECKS["C14"] = dict(level="model_checking", design="DESIGN.md §6 C14, §3.1 He
          "including invalid encodings. Four known deviations of Enum/UniqueItems are named operators honoured only while their witness still fails.",
     note="Trusted: typed-value encoder (reflection), regexp/registry facts, strings.ToLower for case folding.")
 
+CHECKS["C16"] = dict(level="model_checking", design="DESIGN.md §6 C16, Appendix A (simple schemas)",
+    technique="TLA+ operator SimpleSchema!SimpleValid (typed Go values, recursion through items) evaluated by TLC on validations recorded through NewParamValidator / NewHeaderValidator (trace validation, seeded definitions x typed values)",
+    text="Each recorded (definition, typed value, entry point, recycling) event is compared by TLC with the simple-schema semantics: declared type (incl. integer formats' ranges), enum, numeric, string and array "
+         "constraints at every items level; nil is not validated. Three known deviations are named operators honoured while their witness fails.",
+    note="Bounds are integers (C13 owns fractional bounds and float tolerances). Trusted: typed-value encoder, regexp/registry facts.")
+
 NOT_YET = {}
 
 
